@@ -80,6 +80,10 @@ pub fn load_known() -> KnownFindings {
     }
 }
 
+pub fn is_known_pub(known: &KnownFindings, prop: &str, class: &str) -> Option<String> {
+    is_known(known, prop, class)
+}
+
 fn is_known(known: &KnownFindings, prop: &str, class: &str) -> Option<String> {
     known.findings.iter().find(|f| f.status == "open" && f.property == prop && f.class == class).map(|f| f.what.clone())
 }
@@ -380,6 +384,14 @@ pub fn replay_main(path: &str) -> i32 {
             return 2;
         }
     };
+    if let Ok(v) = serde_json::from_str::<serde_json::Value>(&s) {
+        if v["mode"].as_str() == Some("c09") {
+            return crate::c09::replay(&v, path);
+        }
+        if v["mode"].as_str() == Some("threads") {
+            return crate::threads::replay(&v, path);
+        }
+    }
     let trace: Trace = match serde_json::from_str(&s) {
         Ok(t) => t,
         Err(e) => {
